@@ -152,6 +152,17 @@ func c06Scenarios() ([]*sched.Scenario, error) {
 		}); err != nil {
 		return nil, err
 	}
+	// two opposite transfers: each writer locks its own source (GetBalances) and then needs the
+	// other's row for its volume update -> a REAL deadlock; Postgres picks a victim (scheduler
+	// choice), the ledger retries it (forgeLogRetry). The third writer drains a concurrently.
+	if err := mk("S8-opposite-transfers-deadlock-and-retry", []lx.Op{post("fa", p("world", "a", "USD", "10")), post("fb", p("world", "b", "USD", "10"))},
+		[][]lx.Op{
+			{post("a>b10", p("a", "b", "USD", "10"))},
+			{post("b>a10", p("b", "a", "USD", "10"))},
+			{post("a>c10", p("a", "c", "USD", "10"))},
+		}); err != nil {
+		return nil, err
+	}
 	if err := mk("S7-existing-zero-row-bounded-overdraft", []lx.Op{inUse, post("touch", p("world", "x", "USD", "5")), post("untouch", p("x", "world", "USD", "5"))},
 		[][]lx.Op{
 			{{Kind: "script", Name: "x>y100/od100", Script: overdraftScript("x", "y", "100", "100")}},
